@@ -502,6 +502,23 @@ class WriterK1(object):
                 for k_, v_, _n in sinks.header_pairs(ev.data.get('data')):
                     if is_concrete(k_):
                         keys.add(str(concrete(k_)))
+        # constraints under which a caller-supplied (non-None) option value was accepted on this path
+        for pname, v in kwargs.items():
+            if not isinstance(v, Unk) or (v.has_const and v.const is None):
+                continue
+            if v.has_const:
+                cons = (repr(v.const),)
+            elif v.in_sets:
+                inter = None
+                for s_ in v.in_sets:
+                    inter = set(s_) if inter is None else inter & set(s_)
+                cons = tuple(sorted(repr(x) for x in inter))
+            else:
+                cons = None
+            note = 'falsy' if 'falsy' in v.facts else ('any value' if cons is None else '')
+            rec_c = (name, pname, cons, note)
+            if rec_c not in result.setdefault('arg_constraints', []):
+                result['arg_constraints'].append(rec_c)
         for pname, v in kwargs.items():
             key = self.RENDER_KEYS.get(pname)
             if key is None or not isinstance(v, Unk):
@@ -589,7 +606,7 @@ _K = None
 def _run_one(seq):
     res = _K.run_sequence(seq)
     out = {'problems': res['problems'], 'sig': res.get('sig'), 'accepted': res.get('accepted', True)}
-    for k in ('raises', 'escapes', 'ops', 'pairs', 'next_id', 'prev_id', 'written_id', 'rendered', 'unrendered'):
+    for k in ('raises', 'escapes', 'ops', 'pairs', 'next_id', 'prev_id', 'written_id', 'rendered', 'unrendered', 'arg_constraints'):
         if k in res:
             out[k] = res[k]
     return out
